@@ -110,6 +110,29 @@ Proof.
     unfold blk_wires. exact Hsat.
 Qed.
 
+(* the same locality inside a larger block *)
+Theorem sat_block_inner pre blk post asg :
+  block_sat (pre ++ blk ++ post) asg -> closed_block blk -> block_sat blk asg.
+Proof.
+  intros Hsat Hcl i Hi.
+  set (rows := pre ++ blk ++ post) in *.
+  assert (Hlen : length pre + i < length rows).
+  { unfold rows. rewrite !app_length. lia. }
+  specialize (Hsat (length pre + i) Hlen).
+  assert (Hnth : nth_error rows (length pre + i) = nth_error blk i)
+    by (apply nth_error_app_mid; exact Hi).
+  unfold block_row_ok in *. rewrite Hnth in Hsat.
+  destruct (nth_error blk i) as [[g o]|] eqn:E; [|exact I].
+  destruct (Nat.eq_dec (S i) (length blk)) as [Hlast|Hmid].
+  - assert (no_next g) as Hnn.
+    { eapply last_closed; [exact Hcl|]. replace (length blk - 1) with i by lia. exact E. }
+    eapply row_ok_next_irrel; [exact Hnn|exact Hsat].
+  - unfold blk_wires in *.
+    assert (Hnth' : nth_error rows (S (length pre + i)) = nth_error blk (S i)).
+    { replace (S (length pre + i)) with (length pre + S i) by lia. apply nth_error_app_mid; lia. }
+    rewrite Hnth' in Hsat. exact Hsat.
+Qed.
+
 Lemma block_row_okb_true blk asg i :
   block_row_okb blk asg i = true <-> block_row_ok blk asg i.
 Proof.
